@@ -151,6 +151,29 @@ def gen_cases(seed, tier, insts):
         st = chain_strides(rnd, ext) if kind == 'stride' else None
         if st is not None and max(st) > H: continue
         c = SCase(inst, ext, st, sl, 'boundary'); c.ops = ['info'] + (['alias'] if size <= 64 else []); cases.append(c)
+    # boundary, empty slice at the end of one extent while the other slices start at the far end of a source whose span is at the
+    # top of the index type: the start offset of such a view is the span itself, not a sum that leaves the index type
+    ne = 150 if not thorough else 1500
+    dyn2 = [i for i in dyn if len(i[3]) >= 2 and any(k in 'rts' for k in i[3])]
+    for _ in range(ne):
+        inst = rnd.choice(dyn2); kind, t, pat, ks = inst; r = len(ks); H = C.hi(t)
+        ext = []; rem = H
+        for k in range(r - 1):
+            e = max(1, int(rem ** (1.0 / (r - k)))); e = max(1, e - rnd.choice([0, 0, 1])); ext.append(e); rem = max(rem // e, 1)
+        ext.append(max(1, rem)); rnd.shuffle(ext)
+        q = rnd.choice([k for k in range(r) if ks[k] in 'rts'])
+        sl = []
+        for k, (kk, e) in enumerate(zip(ks, ext)):
+            if k == q: sl.append('%s:%d:%d' % (kk, e, e) if kk in 'rt' else 's:%d:0:1' % e)
+            elif kk == 'i': sl.append('i:%d' % (e - 1))
+            elif kk in 'rt': b = rnd.choice([e - 1, e - 1, e // 2, 0]); sl.append('%s:%d:%d' % (kk, b, rnd.choice([b, e])))
+            elif kk == 'f': sl.append('f')
+            else: o = rnd.choice([e - 1, e // 2]); sl.append('s:%d:%d:%d' % (o, rnd.choice([0, e - o]), rnd.choice([1, 2])))
+        st = None
+        if kind == 'stride':
+            st = chain_strides(rnd, ext, (1,))
+            if max(st) > H: continue
+        c = SCase(inst, ext, st, sl, 'boundary-end'); c.ops = ['info']; cases.append(c)
     return cases
 
 def build_server(config='gcc20-ubsan', full=False):
